@@ -86,7 +86,7 @@ def pre_ok(rec):
 
 def judge_apply(rec, prop):
     st = rec.step
-    if st["k"] != "apply" or st.get("fault"):
+    if st["k"] != "apply" or st.get("fault") or st.get("dead_probe"):
         return []
     fam = st["op"]["fam"]
     if prop == "C01" and fam == "comp":
@@ -147,7 +147,7 @@ STRUCT = ("combine", "reorder", "expand", "contract", "composite", "trace_out")
 def judge_c02(rec):
     st = rec.step
     out = []
-    if st["k"] not in STRUCT or st.get("fault"):
+    if st["k"] not in STRUCT or st.get("fault") or st.get("dead_probe"):
         return out
     sig = step_sig(rec)
     lv = live(rec.pre)
@@ -228,7 +228,7 @@ def trace_value_dm(val, dims, kind1=None):
 
 def judge_c06(rec):
     st = rec.step
-    if st["k"] != "kraus" or st.get("fault"):
+    if st["k"] != "kraus" or st.get("fault") or st.get("dead_probe"):
         return []
     sig = step_sig(rec)
     sig["contraction"] = rec.contraction
@@ -334,7 +334,9 @@ def assign_draws(rec, M, outcomes):
             return list(assigned)
         d = draws[j]
         pn = d["p"] / d["p"].sum()
-        cands = [m for m in M if m not in used and dims[names.index(m)] == len(pn)]
+        cands = [m for m in M if dims[names.index(m)] == len(pn)]
+        # (a member that was already drawn may be drawn again: its conditional distribution is then one-hot)
+        cands.sort(key=lambda m: m in used)
         # prefer the member whose reported outcome equals the drawn index
         cands.sort(key=lambda m: 0 if outcomes.get(m) == d["idx"] else 1)
         for m in cands:
@@ -368,7 +370,7 @@ def assign_draws(rec, M, outcomes):
 def judge_measure(rec, prop):
     """C04 (prop == 'C04') and C05 (prop == 'C05') for projective measurement steps"""
     st = rec.step
-    if st["k"] != "measure" or st.get("fault"):
+    if st["k"] != "measure" or st.get("fault") or st.get("dead_probe"):
         return []
     M = S.measured_set(rec)
     sig = step_sig(rec, M or st.get("targets", []))
@@ -495,7 +497,7 @@ def judge_dead_probe(rec):
 
 def judge_c09(rec):
     st = rec.step
-    if st["k"] != "povm" or st.get("fault"):
+    if st["k"] != "povm" or st.get("fault") or st.get("dead_probe"):
         return []
     tg = st["targets"]
     sig = step_sig(rec)
